@@ -16,12 +16,13 @@ MANIFEST = {
             'enclosing workflow and every parent task RUNNING (induction over the ancestor relation) and the '
             'start_task message sets the task RUNNING with processed=False; the runtime context is cleared; '
             'reset re-executes all items; skip marks SKIPPED, publishes publish-on-skip and follows on-skip, '
-            'else on-success, never on-complete; a succeeded task is refused. Four clauses are FALSE of the '
-            'code at full strength and are kept as _full_fails + _partial with engine replays (known '
-            'findings): partial rerun also re-executes succeeded items after the first failed one and then '
-            'hangs; publish-on-error variables survive a successful rerun; routes taken by the failed attempt '
-            'stay taken (on-complete fires twice); the engine by itself (without the REST guard) accepts '
-            'non-ERROR tasks.',
+            'else on-success, never on-complete; a succeeded task is refused by the command itself with nothing '
+            'changed; with reset off exactly the failed items are re-executed and no item that is accepted or in '
+            'progress is ever scheduled again (both true since repo fixes 494951d1 / e3353c67, regressions in '
+            'corpus/C12). Three clauses are FALSE of the code at full strength and are kept as _full_fails + '
+            '_partial with engine replays: publish-on-error variables survive a successful rerun; routes taken '
+            'by the failed attempt stay taken (on-complete fires twice) - both known findings; the engine by '
+            'itself (without the REST guard) reruns non-ERROR tasks that are not SUCCESS (CANCELLED: by design).',
     'note': 'The global clause "finishes as if the task had produced its new result the first time" is decided '
             'by the reference-run monitor (sampled programs/schedules), not by a theorem: only its task-local '
             'part (published variables, routes) is proved. Expressions are literals or task().result.',
